@@ -232,7 +232,8 @@ class TimeDependentLinearPDE(LinearPDE):
         if value.lower() != 'forward_euler' and value.lower() != 'backward_euler':
             raise ValueError(
                 "method can be set to either `forward_euler` or `backward_euler`")
-        self._method = value
+        # the name is validated case-insensitively; store the normalised name that solve() compares with
+        self._method = value.lower()
 
     def assemble(self, parameter):
         """Assemble PDE"""
